@@ -37,7 +37,10 @@ static void pre(struct dispatch_verif_site_s *s, const volatile void *addr)
 }
 
 static dispatch_queue_t q;
-static int concurrent;
+static int concurrent, aaw;   /* aaw: the synchronous submission is dispatch_(barrier_)async_and_wait_f, whose fast path
+                               * (_dispatch_async_and_wait_recurse_one) is a third caller of the same acquire function */
+extern void dispatch_async_and_wait_f(dispatch_queue_t, void *, dispatch_function_t);
+extern void dispatch_barrier_async_and_wait_f(dispatch_queue_t, void *, dispatch_function_t);
 static void fX(void *c) { (void)c; ordX = ++order; }
 static void fI0(void *c) { (void)c; ordI0 = ++order; }
 static void fA(void *c) { (void)c; ordA = ++order; }
@@ -53,6 +56,7 @@ static void *t3_main(void *a)
 int main(int argc, char **argv)
 {
 	concurrent = argc > 1 && !strcmp(argv[1], "concurrent");
+	aaw = argc > 2 && !strcmp(argv[2], "aaw");
 	_dispatch_verif_pre = pre;
 	q = dispatch_queue_create("verif.f1", concurrent ? DISPATCH_QUEUE_CONCURRENT : DISPATCH_QUEUE_SERIAL);
 	atomic_store(&phase, 1);
@@ -69,7 +73,8 @@ int main(int argc, char **argv)
 	if (concurrent) dispatch_barrier_async_f(q, NULL, fA); else dispatch_async_f(q, NULL, fA);
 	atomic_store(&release_w, 1);
 	usleep(50000);
-	if (concurrent) dispatch_barrier_sync_f(q, NULL, fB); else dispatch_sync_f(q, NULL, fB);
+	if (aaw) { if (concurrent) dispatch_barrier_async_and_wait_f(q, NULL, fB); else dispatch_async_and_wait_f(q, NULL, fB); }
+	else if (concurrent) dispatch_barrier_sync_f(q, NULL, fB); else dispatch_sync_f(q, NULL, fB);
 	atomic_store(&release_t3, 1);
 	pthread_join(t3, NULL);
 	dispatch_barrier_sync_f(q, NULL, nop);
